@@ -133,6 +133,39 @@ def check(ctx):
                 if ref == ref and abs(ref) != float('inf') and not close(ref, y):
                     C.issue('not-the-documented-formula', 'oracle', rp_h, got=y, reference=ref)
                 C.case(key=(name, 'huge', len(x), x[0]), nontrivial=True, kind=f'{name}/huge')
+            # coordinates one or a few spacings away from the special values of the formulas (0, the box ends), exactly as a regular
+            # grid produces them (np.arange(-1, 1, 0.1)[10] is -2.2e-16)
+            eps_ = 2.0 ** -52
+            for sp_ in (-eps_, eps_, -2 * eps_, 3 * eps_, -eps_ / 2, 5e-324, -5e-324):
+                if lo <= sp_ <= hi:
+                    other_ = min(hi, max(lo, 0.5))
+                    pts.append(('special', [sp_, other_]))
+                    pts.append(('special', [other_, sp_, other_]))
+                    if name != 'brown':
+                        pts.append(('special', [sp_]))
+            grid_ = [float(v) for v in np.arange(lo, hi, (hi - lo) / 20.0)]
+            pts.append(('grid', grid_))
+            pts.append(('grid', grid_[::-1]))
+            # functions whose formula is a sum / product over all coordinates (no explicit dimension count): a position of shape
+            # (variables, dimensions), as a hypercomplex agent holds it, is the vector of its entries
+            if name in ('alpine1', 'alpine2', 'chung_reynolds', 'cosine_mixture', 'csendes', 'exponential', 'quintic', 'salomon',
+                        'schumer_steiglitz', 'sphere', 'styblinski_tang'):
+                for shp in ((2, 2), (3, 2), (2, 4), (4, 4)):
+                    m_ = np.array([[C.rng.uniform(lo, hi) for _ in range(shp[1])] for _ in range(shp[0])])
+                    rpm = dict(how='bench-matrix', name=name, m=m_.tolist())
+                    try:
+                        ym = fn(np.array(m_, copy=True))
+                        ym = float(np.asarray(ym).reshape(-1)[0]) if np.size(ym) == 1 else float('nan')
+                    except Exception as ex:
+                        C.issue('benchmark-raised', 'oracle', rpm, error=repr(ex)[:100])
+                        continue
+                    try:
+                        rm = float(REF[name](list(m_.reshape(-1))))
+                    except Exception:
+                        rm = float('nan')
+                    if rm == rm and not close(rm, ym):
+                        C.issue('not-the-documented-formula', 'oracle', rpm, got=ym, reference=rm)
+                    C.case(key=(name, 'matrix', shp), nontrivial=True, kind=f'{name}/matrix')
             ok_pts = []
             for tag, x in pts:
                 try:
@@ -331,6 +364,19 @@ def replay(prop, payload):
     L = lib.load()
     np = L['np']
     import opytimizer.math.benchmark as bm
+    if payload.get('how') == 'bench-matrix':
+        name = payload['name']
+        m_ = np.array(payload['m'], dtype=float)
+        try:
+            ym = getattr(bm, name)(np.array(m_, copy=True))
+            ym = float(np.asarray(ym).reshape(-1)[0]) if np.size(ym) == 1 else float('nan')
+        except Exception:
+            return True
+        try:
+            rm = float(REF[name](list(m_.reshape(-1))))
+        except Exception:
+            return False
+        return bool(rm == rm and not close(rm, ym))
     if payload.get('how') == 'bench-huge':
         # only the all-ones vectors replay from the file (the random ones are re-drawn by the check)
         name = payload['name']
